@@ -18,6 +18,7 @@ import YtkProofs.HeapBuilder
 import YtkProofs.HeapBuilderRefine
 import YtkProofs.HeapBuild
 import YtkProofs.HeapBuilderRun
+import YtkProofs.HeapBuilderHist
 
 namespace Ytk.C03
 
@@ -348,20 +349,73 @@ theorem heap_handle_detached (h h' : Heap) (op : HOp) (ret : Option Addr) (root 
     absH f h' root = absH f h root := hstep_abs_frame hi hok he hrl hap f
 
 /-- … and overwriting / removing a position DETACHES the node that was stored there, at any depth
-    of a tree-shaped document: when the walk of the path ends in the existing container `x`, after
-    `root.RemoveAt(path)` or `root.AddValueAt(path, v)` (for a one-component path: `Remove` / `AddValue`;
-    `AddContainer` / `AddList`: `v` = the new cell) the node `y` that `Lookup(path)` returned before
-    shares no container / list with the graph below `root` any more — so by `heap_handle_detached`
-    later writes through the old handle `y`, or through any handle below it, are invisible from `root`.
-    Proved for paths whose LAST component is a plain member name (the full statement also covers a
-    last component `l[i]`, i.e. handles sitting in list slots). -/
-theorem heap_overwrite_detaches_partial (h h' : Heap) (rank : Addr → Nat) (root x y : Addr) (segs : List String)
-    (last : String) (hr : h.RankedBy rank) (hm : h.MapsOk) (hs : SibSep h root)
-    (ha : ancestorH h root segs = some x) (hl : segs.getLast? = some last) (hplain : hasIdxSuffix last = false)
-    (hy : lookupSegsH h root segs = some y) :
-    (removeAtSegsH h root segs = some h' → Apart h' root y) ∧
-    (∀ v, Apart h v y → ¬ Reach h v x → addAtSegsH h root segs v = some h' → Apart h' root y) :=
-  pathwrite_detaches hr hm hs ha hl hplain hy
+    of a tree-shaped document, for EVERY path whose walk ends in an existing container `x` — the last
+    component may be a plain member name or a list position `l[i]…[k]` (a handle sitting in a list slot,
+    overwritten through a CONTAINER call): after `root.AddValueAt(path, v)` (for a one-component path:
+    `AddValue`; `AddContainer` / `AddList`: `v` = the new cell) the node `y` that `Lookup(path)` returned
+    before shares no container / list with the graph below `root` any more — so by
+    `heap_handle_detached` later writes through the old handle `y`, or through any handle below it, are
+    invisible from `root`.  The ONLY condition on the new node: it shares no container / list with `y`
+    (the earlier `¬ Reach h v x` is not needed — the statement is about `Apart`, not about acyclicity).
+    `root.RemoveAt(path)` detaches `y` when the last component is a plain name (`LastPlain`, the domain
+    of remove paths) — necessarily so: `heap_removeAt_index_no_detach_counterexample`. -/
+theorem heap_overwrite_detaches (h h' : Heap) (rank : Addr → Nat) (root x y : Addr) (segs : List String)
+    (hr : h.RankedBy rank) (hm : h.MapsOk) (hs : SibSep h root)
+    (ha : ancestorH h root segs = some x) (hy : lookupSegsH h root segs = some y) :
+    (∀ v, Apart h v y → addAtSegsH h root segs v = some h' → Apart h' root y) ∧
+    (LastPlain segs → removeAtSegsH h root segs = some h' → Apart h' root y) := by
+  obtain ⟨last, hl, _⟩ := ancestorH_spec 0 segs root x ha
+  exact ⟨fun v hvy he => pathwrite_detaches_full hr hm hs ha hy hvy he,
+    fun hp he => (pathwrite_detaches hr hm hs ha hl (hp last hl) hy).1 he⟩
+
+/-- `idxHeap`: 0 nilLeaf · 1 {} · 2 [#1] · 3 = root {l: #2} -/
+def idxHeap : Heap := ⟨[.leaf Scalar.null, .cont [], .list [1], .cont [("l", 2)]]⟩
+
+/-- `LastPlain` cannot be dropped from the removal clause: `RemoveAt("l[0]")` is `delete(children, "l[0]")`
+    on the LITERAL key — there is no such key, nothing is written — so the container `Lookup("l[0]")`
+    returns stays attached to the document. -/
+theorem heap_removeAt_index_no_detach_counterexample :
+    Inv idxHeap ∧ SibSep idxHeap 3 ∧ ancestorH idxHeap 3 ["l[0]"] = some 3 ∧
+    lookupSegsH idxHeap 3 ["l[0]"] = some 1 ∧ removeAtSegsH idxHeap 3 ["l[0]"] = some idxHeap ∧
+    removeAtH idxHeap 3 "l[0]" = some idxHeap ∧ ¬ Apart idxHeap 3 1 := by
+  refine ⟨⟨closed_of_all (by decide), ⟨fun a => a, rankedBy_of_all (by decide)⟩, mapsOk_of_all (by decide +kernel), rfl⟩,
+    sibSep_of_sibSepB (by decide +kernel), by decide +kernel, by decide +kernel, by decide +kernel,
+    by decide +kernel, ?_⟩
+  intro hap
+  have h31 : Reach idxHeap 3 1 := mem_reachF _ 3 1 (show 1 ∈ Ytk.Heap.reach idxHeap 3 by decide)
+  exact hap 1 h31 (.refl _) ⟨.cont [], rfl, rfl⟩
+
+/-- `exD`: 0 nilLeaf · 1 leaf 1 · 2 {k: #1} · 3 [#2] · 4 {l: #3} · 5 = root {a: #4} · 6 leaf "v" -/
+def exD : Heap := ⟨[.leaf Scalar.null, .leaf ⟨"int", "1"⟩, .cont [("k", 1)], .list [2], .cont [("l", 3)],
+  .cont [("a", 4)], .leaf ⟨"string", "v"⟩]⟩
+
+/-- the list-position case is not vacuous: `root.AddValueAt("a.l[0]", #6)` overwrites slot 0 of the list
+    #3 (the ONLY cell whose content changes) and detaches the container #2 that sat in it -/
+theorem nonvacuous_heap_overwrite_detaches :
+    exD.RankedBy (fun a => a) ∧ exD.MapsOk ∧ SibSep exD 5 ∧ ancestorH exD 5 ["a", "l[0]"] = some 4 ∧
+    lookupSegsH exD 5 ["a", "l[0]"] = some 2 ∧ ¬ LastPlain ["a", "l[0]"] ∧ Apart exD 6 2 ∧
+    ∃ h', addAtSegsH exD 5 ["a", "l[0]"] 6 = some h' ∧ Apart h' 5 2 ∧
+      ((List.range 7).filter fun a => h'.get? a != exD.get? a) = [3] := by
+  have hr : exD.RankedBy (fun a => a) := rankedBy_of_all (by decide)
+  have hm : exD.MapsOk := mapsOk_of_all (by decide +kernel)
+  have hs : SibSep exD 5 := sibSep_of_sibSepB (by decide +kernel)
+  have hap : Apart exD 6 2 := apart_of_apartB (by decide +kernel)
+  refine ⟨hr, hm, hs, by decide +kernel, by decide +kernel, ?_, hap, ?_⟩
+  · intro hp
+    have := hp "l[0]" rfl
+    revert this
+    decide +kernel
+  · cases he : addAtSegsH exD 5 ["a", "l[0]"] 6 with
+    | none =>
+      have : (addAtSegsH exD 5 ["a", "l[0]"] 6).isSome = true := by decide +kernel
+      rw [he] at this; cases this
+    | some h' =>
+      refine ⟨h', rfl, (heap_overwrite_detaches exD h' _ 5 4 2 _ hr hm hs (by decide +kernel) (by decide +kernel)).1
+        6 hap he, ?_⟩
+      have : ((addAtSegsH exD 5 ["a", "l[0]"] 6).map fun h' =>
+          (List.range 7).filter fun a => h'.get? a != exD.get? a) = some [3] := by decide +kernel
+      rw [he] at this
+      exact Option.some.inj this
 
 /-- … the same for handles sitting in LIST SLOTS, when the slot is overwritten / the list cleared through
     the list (`ListBuilder.Set` / `MustSet` / `Clear` on a list `l` of the tree-shaped document): the
@@ -548,6 +602,191 @@ theorem nonvacuous_heap_tree_run :
       simp only [Bool.and_eq_true, decide_eq_true_eq] at key
       exact ⟨h2, .cons hok1 he1 (.cons hok2 he2 (.nil _)), key.1, key.2⟩
 
+/-! ### Whole histories that mix calls on handles with calls on the root
+
+  `HandleRun root h ops bops h'` (YtkProofs/HeapBuilderHist.lean) is the CORRESPONDENCE OF HISTORIES:
+  the heap-level history `ops` (each call addressed by the ADDRESS of the handle it is made on) runs
+  from `h` to `h'`, and `bops` is the value-level history that corresponds to it:
+
+    * a call on a handle that is LIVE at the path string `p` when the call is made (`LiveAt`: the root
+      for `p = ""`, otherwise the node `root.Lookup(p)` returns in the current heap) contributes the
+      explicit function `HOp.atPath p vn xn op` — on the root the root-level `BOp` (`HOp.toBOp`), on a
+      handle the PATH-LEVEL call at `utils.ToPath(p, name)`: `x.AddValue(name, v)` ↦
+      `AddValueAt(p.name, v)`, `x.AddContainer(name)` ↦ `AddValueAt(p.name, {})`, `x.Remove(name)` ↦
+      `RemoveAt(p.name)`, `x.AddValueAt(q, v)` ↦ `AddValueAt(p.q, v)`, `l.Set(i, v)` ↦ the list call
+      addressed by `p`, `Child` / `Lookup` ↦ nothing.  Two kinds of handle calls have no path-level
+      counterpart — a member name containing '.' (the handle call stores the literal key, every path
+      would split it) and `Walk(CompactFn)` on a sub-container (`BOp.compact` is the root call) —;
+      they are rendered as `AddValueAt(p, <the handle's updated subtree>)` (`restoreAt`, computed from
+      `xn`, the abstraction of the handle).  The call must be `HOp.TreeOk` (as in `heap_run_tree`),
+      `vn` is the abstraction of its value node;
+    * a call on a DETACHED handle (`Apart h root target`, `HOp.Ok` as in `heap_run_closed`)
+      contributes NOTHING.
+
+  So every successful call on the root, on a live handle or on a detached handle is covered. -/
+
+/-- WHOLE-HISTORY REFINEMENT WITH HANDLES: for every history of builder calls on the root, on live
+    handles (containers and lists, also handles sitting in list slots: `p = "a.l[2]"`) and on detached
+    handles, started in a well-formed tree-shaped document, every invariant of `heap_run_closed` /
+    `heap_run_tree` holds at the end, `hrun` succeeds, and the abstraction of the root is `brun` of the
+    corresponding value-level history — so every value-level law (set-get, frame, padding, `run_valid`)
+    holds for programs that keep and use handles. -/
+theorem heap_run_refines (root : Addr) (h h' : Heap) (ops : List HOp) (bops : List BOp) (d : AMap Node)
+    (hrun : HandleRun root h ops bops h') (hi : Inv h) (hs : SibSep h root) (hrl : root < h.size)
+    (hd : abs h root = some (.cont d)) :
+    Inv h' ∧ SibSep h' root ∧ root < h'.size ∧ Ytk.Heap.hrun h ops = .ok h' ∧
+      ∃ d', brun d bops = .ok d' ∧ abs h' root = some (.cont d') :=
+  hrun.refines hi hs hrl hd
+
+/-- … one live call, stated on its own: the call on the handle at `p` IS `brun` of `HOp.atPath p` -/
+theorem heap_step_live_refines (h h' : Heap) (root : Addr) (op : HOp) (ret : Option Addr) (d : AMap Node)
+    (vn xn : Node) (p : String) (bops : List BOp) (hi : Inv h) (hs : SibSep h root) (hrl : root < h.size)
+    (hok : op.TreeOk h root) (hlive : LiveAt h root op.target p) (hd : abs h root = some (.cont d))
+    (hv : ∀ v, op.value = some v → abs h v = some vn) (hxn : abs h op.target = some xn)
+    (hb : op.atPath p vn xn = some bops) (he : hstep h op = .ok (h', ret)) :
+    ∃ d', brun d bops = .ok d' ∧ abs h' root = some (.cont d') :=
+  hstep_live_refines hi hs hrl hok hlive hd hv hxn hb he
+
+def exV : Node := .leaf ⟨"string", "v"⟩
+def exOne : Node := .leaf ⟨"int", "1"⟩
+
+/-- the heaps of the history below (cells 0, 1, 3 and 4 never change after the second call) -/
+def exH1 : Heap := ⟨[.leaf Scalar.null, .leaf ⟨"int", "1"⟩, .cont [("b", 1), ("z", 4)], .cont [("a", 2), ("n", 0)],
+  .leaf ⟨"string", "v"⟩]⟩
+def exH2 : Heap := ⟨[.leaf Scalar.null, .leaf ⟨"int", "1"⟩, .cont [("b", 1), ("z", 4)], .cont [("a", 5), ("n", 0)],
+  .leaf ⟨"string", "v"⟩, .cont []]⟩
+def exHd (tail : List Cell) : Heap := ⟨[.leaf Scalar.null, .leaf ⟨"int", "1"⟩, .cont [("b", 1), ("y", 1), ("z", 4)],
+  .cont [("a", 5), ("n", 0)], .leaf ⟨"string", "v"⟩] ++ tail⟩
+def exH3 : Heap := exHd [.cont []]
+def exH4 : Heap := exHd [.cont [("l", 6)], .list []]
+def exH5 : Heap := exHd [.cont [("l", 6)], .list [4]]
+def exH6 : Heap := exHd [.cont [("e", 7), ("l", 6)], .list [4], .cont []]
+def exH7 : Heap := exHd [.cont [("e", 7), ("l", 6), ("x.y", 1)], .list [4], .cont []]
+def exH8 : Heap := exHd [.cont [("l", 6), ("x.y", 1)], .list [4], .cont []]
+
+/-- the heap-level history: `x := root.Child("a")` (= #2) ·
+    1 `x.AddValue("z", #4)` (x LIVE at "a") · 2 `y := root.AddContainer("a")` (on the root; returns the new
+    #5 and DETACHES #2) · 3 `x.AddValue("y", #1)` (on the now detached #2: invisible) ·
+    4 `l := y.AddList("l")` (y live at "a"; returns #6) · 5 `l.Append(#4)` (list handle, live at "a.l") ·
+    6 `y.AddContainer("e")` · 7 `y.AddValue("x.y", #1)` (a dotted member name) · 8 `y.Walk(CompactFn)` -/
+def exHOps : List HOp := [.addValue 2 "z" 4, .addContainer 3 "a", .addValue 2 "y" 1, .addList 5 "l",
+  .listAppend 6 4, .addContainer 5 "e", .addValue 5 "x.y" 1, .compact 5]
+
+/-- … and the value-level history that corresponds to it: SEVEN calls (call 3 contributes none) -/
+def exBOps : List BOp := [.addValueAt "a.z" exV, .addContainer "a", .addValueAt "a.l" (.list []),
+  .listAppend "a.l" exV, .addValueAt "a.e" (.cont []),
+  .addValueAt "a" (.cont (add [("e", .cont []), ("l", .list [exV])] "x.y" exOne)),
+  .addValueAt "a" (.cont (compactKvs [("e", .cont []), ("l", .list [exV]), ("x.y", exOne)]))]
+
+/-- a history on `exB` (root #3) that uses handles in every way; the document at the end is `brun` of
+    the corresponding value-level history -/
+theorem nonvacuous_heap_run_refines :
+    HandleRun 3 exB exHOps exBOps exH8 ∧
+    abs exB 3 = some (.cont [("a", .cont [("b", exOne)]), ("n", Node.null)]) ∧
+    brun [("a", .cont [("b", exOne)]), ("n", Node.null)] exBOps =
+      .ok [("a", .cont [("l", .list [exV]), ("x.y", exOne)]), ("n", Node.null)] ∧
+    abs exH8 3 = some (.cont [("a", .cont [("l", .list [exV]), ("x.y", exOne)]), ("n", Node.null)]) := by
+  refine ⟨?_, by decide +kernel, by decide +kernel, by decide +kernel⟩
+  have reach : ∀ (g : Heap) (a b : Addr), b ∈ Ytk.Heap.reach g a → Reach g a b := fun g a b hb => mem_reachF _ a b hb
+  have novalue : ∀ (g : Heap) (op : HOp), op.value = none → ∀ v, op.value = some v →
+      v < g.size ∧ SibSep g v ∧ Apart g 3 v := fun g op hn v hv => by rw [hn] at hv; cases hv
+  have leafval : ∀ (g : Heap) (v : Addr) (s : Scalar), g.get? v = some (.leaf s) →
+      v < g.size ∧ SibSep g v ∧ Apart g 3 v := fun g v s hg => by
+    obtain ⟨h1, h2, h3, _⟩ := leaf_value_ok hg 3
+    exact ⟨h1, h2, h3⟩
+  -- 1. x.AddValue("z", #4), x = #2 live at "a"
+  refine .live (p := "a") (vn := exV) (xn := .cont [("b", exOne)]) (bs := [.addValueAt "a.z" exV])
+    (ret := none) (h1 := exH1) ⟨reach exB 3 2 (by decide), fun v hv => ?_⟩ (by decide +kernel)
+    (fun v hv => by cases hv; decide +kernel) (by decide +kernel) rfl (by decide +kernel) ?_
+  · cases hv; exact leafval exB 4 ⟨"string", "v"⟩ rfl
+  -- 2. root.AddContainer("a")
+  refine .live (p := "") (vn := Node.null)
+    (xn := .cont [("a", .cont [("b", exOne), ("z", exV)]), ("n", Node.null)]) (bs := [.addContainer "a"])
+    (ret := some 5) (h1 := exH2) ⟨.refl _, novalue exH1 _ rfl⟩ (by decide +kernel) (fun v hv => by cases hv)
+    (by decide +kernel) rfl (by decide +kernel) ?_
+  -- 3. x.AddValue("y", #1) on the DETACHED #2
+  refine .detached (ret := none) (h1 := exH3) ⟨by decide, fun v hv => ?_⟩ (apart_of_apartB (by decide +kernel))
+    (by decide +kernel) ?_
+  · cases hv
+    obtain ⟨h1, _, _, h4⟩ := leaf_value_ok (h := exH2) (v := 1) (s := ⟨"int", "1"⟩) rfl 2
+    exact ⟨h1, h4⟩
+  -- 4. y.AddList("l"), y = #5 live at "a"
+  refine .live (p := "a") (vn := Node.null) (xn := .cont []) (bs := [.addValueAt "a.l" (.list [])])
+    (ret := some 6) (h1 := exH4) ⟨reach exH3 3 5 (by decide), novalue exH3 _ rfl⟩ (by decide +kernel)
+    (fun v hv => by cases hv) (by decide +kernel) rfl (by decide +kernel) ?_
+  -- 5. l.Append(#4), l = #6 live at "a.l"
+  refine .live (p := "a.l") (vn := exV) (xn := .list []) (bs := [.listAppend "a.l" exV])
+    (ret := none) (h1 := exH5) ⟨reach exH4 3 6 (by decide), fun v hv => ?_⟩ (by decide +kernel)
+    (fun v hv => by cases hv; decide +kernel) (by decide +kernel) rfl (by decide +kernel) ?_
+  · cases hv; exact leafval exH4 4 ⟨"string", "v"⟩ rfl
+  -- 6. y.AddContainer("e")
+  refine .live (p := "a") (vn := Node.null) (xn := .cont [("l", .list [exV])])
+    (bs := [.addValueAt "a.e" (.cont [])]) (ret := some 7) (h1 := exH6)
+    ⟨reach exH5 3 5 (by decide), novalue exH5 _ rfl⟩ (by decide +kernel) (fun v hv => by cases hv)
+    (by decide +kernel) rfl (by decide +kernel) ?_
+  -- 7. y.AddValue("x.y", #1): a dotted member name — the updated subtree is re-stored at "a"
+  refine .live (p := "a") (vn := exOne) (xn := .cont [("e", .cont []), ("l", .list [exV])])
+    (bs := [.addValueAt "a" (.cont (add [("e", .cont []), ("l", .list [exV])] "x.y" exOne))])
+    (ret := none) (h1 := exH7) ⟨reach exH6 3 5 (by decide), fun v hv => ?_⟩ (by decide +kernel)
+    (fun v hv => by cases hv; decide +kernel) (by decide +kernel) rfl (by decide +kernel) ?_
+  · cases hv; exact leafval exH6 1 ⟨"int", "1"⟩ rfl
+  -- 8. y.Walk(CompactFn) on the sub-container: drops the empty "e"
+  exact .live (p := "a") (vn := Node.null) (xn := .cont [("e", .cont []), ("l", .list [exV]), ("x.y", exOne)])
+    (bs := [.addValueAt "a" (.cont (compactKvs [("e", .cont []), ("l", .list [exV]), ("x.y", exOne)]))])
+    (ret := none) (h1 := exH8) ⟨reach exH7 3 5 (by decide), novalue exH7 _ rfl⟩ (by decide +kernel)
+    (fun v hv => by cases hv) (by decide +kernel) rfl (by decide +kernel) (.nil _)
+
+/-- HANDLES ARE BORN LIVE (how the `LiveAt` hypotheses of `HandleRun` arise): on a handle `x` that is live
+    at `p`, the cell `x.AddContainer(name)` / `x.AddList(name)` returns is live at `utils.ToPath(p, name)` in
+    the heap after the call (member names without '.'), and what `x.Child(name)` / `x.Lookup(q)` return is
+    live at `ToPath(p, q)` — so a handle is live from the call that produced it until a call overwrites
+    or removes a position on its path (`heap_overwrite_detaches`; `heap_handle_stays`: writes at diverging
+    paths do not move it). -/
+theorem heap_handle_born_live (h h' : Heap) (root x b : Addr) (p name : String) (hi : Inv h) (hrl : root < h.size)
+    (hlive : LiveAt h root x p) (hdot : '.' ∉ name.toList) (hq : toPath p name ≠ "") :
+    (addContainerH h x name = some (h', b) → b = h.size ∧ LiveAt h' root b (toPath p name)) ∧
+    (addListH h x name = some (h', b) → b = h.size ∧ LiveAt h' root b (toPath p name)) ∧
+    (∀ y q kvs, h.get? x = some (.cont kvs) → toPath p q ≠ "" → lookupSegsH h x (splitPath q) = some y →
+      LiveAt h root y (toPath p q)) := by
+  refine ⟨fun he => ?_, fun he => ?_, fun y q kvs hg hq' hl => born_live_read hlive hg q hq' hl⟩
+  · unfold addContainerH at he
+    simp only at he
+    split at he
+    · rename_i h2 he'
+      simp only [Option.some.injEq, Prod.mk.injEq] at he
+      obtain ⟨rfl, rfl⟩ := he
+      exact ⟨rfl, born_live_new rfl (fun kvs hk => by cases hk; exact .nil) hi hrl hlive hdot hq he'⟩
+    · cases he
+  · unfold addListH at he
+    simp only at he
+    split at he
+    · rename_i h2 he'
+      simp only [Option.some.injEq, Prod.mk.injEq] at he
+      obtain ⟨rfl, rfl⟩ := he
+      exact ⟨rfl, born_live_new rfl (fun kvs hk => by cases hk) hi hrl hlive hdot hq he'⟩
+    · cases he
+
+/-- … AND THE DOCUMENTED PANIC: when such a history is followed by `l.MustSet(i, v)` on a list handle that
+    is live at `p`, the heap-level history panics EXACTLY WHEN the corresponding value-level history
+    (`… ++ [MustSet at p]`) does — out of range both panic, in range neither does. -/
+theorem heap_run_refines_panic (root : Addr) (h h1 : Heap) (ops : List HOp) (bops : List BOp) (d : AMap Node)
+    (hrun : HandleRun root h ops bops h1) (hi : Inv h) (hs : SibSep h root) (hrl : root < h.size)
+    (hd : abs h root = some (.cont d)) (l v : Addr) (i : Nat) (p : String) (vn : Node) (hp : p ≠ "")
+    (hlive : LiveAt h1 root l p) :
+    Ytk.Heap.hrun h (ops ++ [.listMustSet l i v]) = .panic ↔ brun d (bops ++ [.listMustSet p i vn]) = .panic :=
+  hrun.refines_panic hi hs hrl hd vn hp hlive
+
+/-- after the history above `l.MustSet(5, #4)` on the one-item list #6 (live at "a.l") panics in both models,
+    `l.MustSet(0, #4)` in neither -/
+theorem nonvacuous_heap_run_panic :
+    LiveAt exH8 3 6 "a.l" ∧
+    Ytk.Heap.hrun exB (exHOps ++ [.listMustSet 6 5 4]) = .panic ∧
+    brun [("a", .cont [("b", exOne)]), ("n", Node.null)] (exBOps ++ [.listMustSet "a.l" 5 exV]) = .panic ∧
+    Ytk.Heap.hrun exB (exHOps ++ [.listMustSet 6 0 4]) ≠ .panic ∧
+    brun [("a", .cont [("b", exOne)]), ("n", Node.null)] (exBOps ++ [.listMustSet "a.l" 0 exV]) ≠ .panic := by
+  decide +kernel
+
 end heap
+
 
 end Ytk.C03
